@@ -551,6 +551,14 @@ def plan_C18(ctx):
     scen = ctx.mc("MC_C18")
     ctx.mc("MC_C18", cfg="MC_C18_live", export=False, tag="MC_C18_live")
     summary = run_cli_scenarios(ctx, scen, "cli-scenarios")
+    if ctx.deep:
+        # families of other properties through the real binary: control flow with positional log probes (log lines
+        # before the result, nothing after a failure), var paths, string slicing
+        for mod, env, tag, every in (("MC_Machine", {"VERIF_FAMILY": "C05"}, "MC_Machine_C05", 6), ("MC_C11", None, "MC_C11", 8), ("MC_C16", None, "MC_C16", 40)):
+            cs = ctx.mc(mod, env=env, tag=tag)
+            cli_s = os.path.join(ctx.wd, "deep-cli-%s.ndjson" % tag)
+            cases_to_process_scenarios(cs, cli_s, os.path.join(ctx.wd, "deep-py-unused.ndjson"), every)
+            run_cli_scenarios(ctx, cli_s, "cli-" + tag)
     with open(scen) as f:
         for i, line in enumerate(f):
             ctx.nontrivial.add(("scenario", i))
@@ -641,6 +649,12 @@ def plan_C19(ctx):
     scen = ctx.mc("MC_C19")
     ctx.mc("MC_C19", cfg="MC_C19_live", export=False, tag="MC_C19_live")
     run_py_scenarios(ctx, scen, "python-scenarios")
+    if ctx.deep:
+        for mod, env, tag, every in (("MC_C11", None, "MC_C11", 4), ("MC_C10", None, "MC_C10", 30), ("MC_C16", None, "MC_C16", 40), ("MC_Machine", {"VERIF_FAMILY": "C05"}, "MC_Machine_C05", 8)):
+            cs = ctx.mc(mod, env=env, tag=tag)
+            py_s = os.path.join(ctx.wd, "deep-py-%s.ndjson" % tag)
+            cases_to_process_scenarios(cs, os.path.join(ctx.wd, "deep-cli-unused.ndjson"), py_s, every)
+            run_py_scenarios(ctx, py_s, "python-" + tag)
     with open(scen) as f:
         for i, line in enumerate(f):
             ctx.nontrivial.add(("scenario", i))
